@@ -51,10 +51,8 @@ func (m *PluginManager) ListInstalledPlugins() ([]PluginMetadata, error) {
 
 		curOut := make([]PluginMetadata, len(pluginDirectories))
 		for i, dir := range pluginDirectories {
-			firstDashIndex := strings.LastIndex(dir.Name(), "-")
-			secondDashIndex := firstDashIndex + 1 + strings.LastIndex(dir.Name()[firstDashIndex+1:], "-")
 			curOut[i].Reference = config.PluginReference{
-				Name:       dir.Name()[secondDashIndex+1:],
+				Name:       strings.TrimPrefix(dir.Name(), "octosql-plugin-"),
 				Repository: repoDirName.Name(),
 			}
 		}
